@@ -220,7 +220,9 @@ fn validate_use_of_arguments_for_client_type<TCompilationProfile: CompilationPro
                         &mut reachable_variables,
                         field_argument_definitions,
                         variable_definitions,
-                        true,
+                        // Object selections cannot be selected loadably, so all
+                        // required arguments must be provided.
+                        false,
                         &object_selection.arguments,
                         object_selection.name.location,
                     );
